@@ -163,7 +163,7 @@ TOL_BAND = 1e-9      # relative band around "distance == tol" / "|cm difference|
 
 
 def use_caps_ref(xs, cms, index_list, old_mask=0, add=False, tol=1e-10,
-                 allow_doubles=False, allow_neg_doubles=False):
+                 allow_doubles=False, allow_neg_doubles=False, info=None):
     """Expected use mask, and a reason (non-empty string) if the case must not be asserted.
 
     Selected = bits of index_list (| old mask when add).  Unless allow_doubles, walking i upwards, every
@@ -174,9 +174,12 @@ def use_caps_ref(xs, cms, index_list, old_mask=0, add=False, tol=1e-10,
     evaluation of the same quantities is accurate to ~5e-16 relative (the difference of two nearby doubles is
     exact, three squares, two additions, tol**2), so a pair is ambiguous only when a quantity is within
     TOL_BAND = 1e-9 (relative) of tol: margin 1e6.
-    A second reading of "later duplicates of a selected cap" (j dropped if it duplicates ANY earlier requested
-    cap, even one that was itself dropped) is evaluated too; if the two readings differ (tolerance relation not
-    transitive on this input) the case is not asserted.
+    Chains (the tolerance relation is not transitive: B doubles A, C doubles B, C does not double A): a cap
+    that has been dropped as a double is no longer selected and therefore no longer serves as the reference for
+    later caps - C stays.  This is what "minus later duplicates of a *selected* cap" says and what the unchanged
+    code implements (its outer loop re-tests is_cap_used(use_caps, i) for every i, after earlier removals).  The
+    other reading (any earlier *requested* cap knocks out) is computed only for evidence: ``info['chain']`` is
+    set when the two differ, i.e. when the case distinguishes them.
     """
     xs = np.asarray(xs).astype(LD).reshape(-1, 3)
     cms = np.asarray(cms).astype(LD).reshape(-1)
@@ -217,6 +220,6 @@ def use_caps_ref(xs, cms, index_list, old_mask=0, add=False, tol=1e-10,
     for b, k in enumerate(sel):
         if not alive[b]:
             out &= ~(1 << k)
-    if alive != alive2:
-        return out, 'duplicate relation not transitive here: the two readings of "later duplicates" differ'
+    if info is not None:
+        info['chain'] = alive != alive2
     return out, ''
